@@ -34,6 +34,12 @@ Section Replica.
     unfold read_next, install, read_start. cbn.
     destruct (Nat.eqb_spec (r_gen S r) (Datatypes.S (r_gen S r))) as [E|E]; [lia|reflexivity].
   Qed.
+  (* a lazy sequence never fails: it delivers the content of the replica at the time it is consumed - the new content
+     when an install happened between handing it out and consuming it *)
+  Lemma lazy_consume_current (r : rep S) : lazy_consume S r = Some (r_store S r).
+  Proof. unfold lazy_consume, read_next, read_start. cbn. now rewrite Nat.eqb_refl. Qed.
+  Lemma lazy_after_install (r : rep S) s : lazy_consume S (install S r s) = Some s.
+  Proof. apply lazy_consume_current. Qed.
   Lemma reader_new_after_install (r : rep S) s :
     read_next S (install S r s) (read_start S (install S r s)) = Some s.
   Proof. unfold read_next, install, read_start. cbn. now rewrite Nat.eqb_refl. Qed.
